@@ -55,3 +55,26 @@ class Drawing2(metaclass=StableHashMeta):
         namespace = "urn:shapes"
 
     shape: Optional[Shape] = field(default=None, metadata={"type": "Element"})
+
+
+# The same annotation text in two modules: typing memoises `Optional["Street"]`, so both modules share one
+# ForwardRef object although the name means another class in each of them.
+@dataclass
+class House(metaclass=StableHashMeta):
+    class Meta:
+        name = "house"
+        namespace = "urn:s2"
+
+    street: Optional["Street"] = field(default=None, metadata={"type": "Element"})
+    streets: list["Street"] = field(default_factory=list, metadata={"type": "Element", "name": "side"})
+    owner: Optional[str] = field(default=None, metadata={"type": "Attribute"})
+
+
+@dataclass
+class Street(metaclass=StableHashMeta):
+    class Meta:
+        name = "street"
+        namespace = "urn:s2"
+
+    name: Optional[str] = field(default=None, metadata={"type": "Element"})
+    zip_code: Optional[str] = field(default=None, metadata={"type": "Attribute"})
